@@ -13,7 +13,7 @@ use proptest::strategy::Strategy;
 use serde_json::Value;
 use std::collections::BTreeSet;
 
-pub const RULE: &str = "proptest-generated in-memory workspaces biased to colliding names (pool of 3; same name in several conftests, imported modules, plugin and third-party files; override patterns; cycles; scope chains). The observable snapshot (go-to at every usage, references per definition, available fixtures per file, scope mismatches, full normalised cycle list with anchors, unused list) after analysing the files in path order is compared with the snapshot after 3 generated permutations (thorough: all permutations for <=6 files). Non-trivial = some name has >=2 definitions; distinct = distinct workspace specs.";
+pub const RULE: &str = "proptest-generated in-memory workspaces biased to colliding names (pool of 3; same name in several conftests, imported modules, plugin and third-party files; override patterns; cycles; scope chains). The observable snapshot (go-to at every usage, references per definition, available fixtures per file, scope mismatches, full normalised cycle list with anchors, unused list) after analysing the files in path order is compared with the snapshot after 3 generated permutations (thorough: all permutations for <=6 files). Scan tier: the same kind of workspace widened by up to 40 extra test modules is materialised on disk and scanned by the real parallel scan in this process and in 5 child processes with RAYON_NUM_THREADS 1/2/3/5/8; snapshots and the sets of indexed files must agree, and every test module / conftest.py of the tree must be indexed. Non-trivial = some name has >=2 definitions (scan tier: and >=9 scanned files); distinct = distinct workspace specs.";
 pub const ASSUMPTIONS: &[&str] = &[
     "the parallel scan affects the index only through the order in which per-file analyses append to the per-name vectors (interleavings inside one analysis are C09's business)",
     "undeclared-fixture findings are excluded (the statement does not list them; they depend on what was indexed at analysis time by design)",
@@ -139,51 +139,9 @@ pub fn check_case(c: &Case, info: &mut CaseInfo) -> Outcome {
             continue;
         }
         let fo = flatten(&other);
-        // cycle reports whose paths agree and only the anchoring fixture differs: the DFS entered the
-        // cycle from another root because a name with several definitions registered differently
-        let paths = |f: &BTreeSet<(String, Vec<String>, String)>| -> BTreeSet<Vec<String>> { f.iter().filter(|e| e.0 == "cycles").map(|e| e.1.clone()).collect() };
-        let only_anchor_moved = paths(&fb) == paths(&fo) && !s_diag.is_empty();
-        for (sec, names, entry) in fb.symmetric_difference(&fo) {
-            let (set, kf) = if sec == "scope" || sec == "cycles" { (&s_diag, KF_DIAG) } else { (&s_pick, KF_PICK) };
-            let msg = format!(
-                "analysis order {:?} vs path order: `{}` answer differs: {}",
-                order.iter().map(|i| ws.files[*i].loc.rel()).collect::<Vec<_>>(),
-                sec,
-                entry
-            );
-            let connected_to_multi = (sec == "cycles" || sec == "scope") && {
-                // names with several definitions that are connected (through any definition's
-                // parameters) to the names of this report can steer the name-level DFS
-                let mut comp: BTreeSet<String> = names.iter().cloned().collect();
-                loop {
-                    let mut grew = false;
-                    for d in m.all_defs() {
-                        let t = m.def_tok(d);
-                        let touches = comp.contains(&t.name) || t.deps.iter().any(|x| comp.contains(x));
-                        if touches {
-                            if comp.insert(t.name.clone()) {
-                                grew = true;
-                            }
-                            for x in &t.deps {
-                                if comp.insert(x.clone()) {
-                                    grew = true;
-                                }
-                            }
-                        }
-                    }
-                    if !grew {
-                        break;
-                    }
-                }
-                comp.iter().any(|n| s_diag.contains(n))
-            };
-            if names.iter().any(|n| set.contains(n)) || (sec == "cycles" && only_anchor_moved) || connected_to_multi {
-                info.known_trigger = true;
-                known.insert(kf.to_string());
-                detail.get_or_insert(msg);
-            } else {
-                return Outcome::Fail(msg);
-            }
+        let what = format!("analysis order {:?} vs path order", order.iter().map(|i| ws.files[*i].loc.rel()).collect::<Vec<_>>());
+        if let Some(fail) = attribute_diff(&m, &s_pick, &s_diag, &fb, &fo, &what, &mut known, &mut detail, info) {
+            return fail;
         }
     }
     if known.is_empty() {
@@ -192,6 +150,176 @@ pub fn check_case(c: &Case, info: &mut CaseInfo) -> Outcome {
         info.fail_detail = detail;
         Outcome::Known(known.into_iter().collect())
     }
+}
+
+type Flat = BTreeSet<(String, Vec<String>, String)>;
+
+/// Every differing entry of two flattened snapshots must carry the signature of one of the two
+/// recorded registration-order findings; anything else is returned as a failure.
+#[allow(clippy::too_many_arguments)]
+fn attribute_diff(m: &Model, s_pick: &BTreeSet<String>, s_diag: &BTreeSet<String>, fb: &Flat, fo: &Flat, what: &str, known: &mut BTreeSet<String>, detail: &mut Option<String>, info: &mut CaseInfo) -> Option<Outcome> {
+    // cycle reports whose paths agree and only the anchoring fixture differs: the DFS entered the
+    // cycle from another root because a name with several definitions registered differently
+    let paths = |f: &Flat| -> BTreeSet<Vec<String>> { f.iter().filter(|e| e.0 == "cycles").map(|e| e.1.clone()).collect() };
+    let only_anchor_moved = paths(fb) == paths(fo) && !s_diag.is_empty();
+    for (sec, names, entry) in fb.symmetric_difference(fo) {
+        let (set, kf) = if sec == "scope" || sec == "cycles" { (s_diag, KF_DIAG) } else { (s_pick, KF_PICK) };
+        let msg = format!("{}: `{}` answer differs: {}", what, sec, entry);
+        if sec == "files" {
+            return Some(Outcome::Fail(msg));
+        }
+        let connected_to_multi = (sec == "cycles" || sec == "scope") && {
+            // names with several definitions that are connected (through any definition's
+            // parameters) to the names of this report can steer the name-level DFS
+            let mut comp: BTreeSet<String> = names.iter().cloned().collect();
+            loop {
+                let mut grew = false;
+                for d in m.all_defs() {
+                    let t = m.def_tok(d);
+                    let touches = comp.contains(&t.name) || t.deps.iter().any(|x| comp.contains(x));
+                    if touches {
+                        if comp.insert(t.name.clone()) {
+                            grew = true;
+                        }
+                        for x in &t.deps {
+                            if comp.insert(x.clone()) {
+                                grew = true;
+                            }
+                        }
+                    }
+                }
+                if !grew {
+                    break;
+                }
+            }
+            comp.iter().any(|n| s_diag.contains(n))
+        };
+        if names.iter().any(|n| set.contains(n)) || (sec == "cycles" && only_anchor_moved) || connected_to_multi {
+            info.known_trigger = true;
+            known.insert(kf.to_string());
+            detail.get_or_insert(msg);
+        } else {
+            return Some(Outcome::Fail(msg));
+        }
+    }
+    None
+}
+
+// ---------------------------------------------------------------------------------------------
+// scan tier: the real parallel scan, in separate processes, with different worker counts
+// ---------------------------------------------------------------------------------------------
+
+#[derive(Clone, Debug, serde::Serialize, serde::Deserialize)]
+pub struct ScanCase {
+    pub ws: WorkspaceSpec,
+    /// extra test modules (directory pick, items): the scan's work list gets long enough for every
+    /// worker count to split it differently
+    pub extra: Vec<(u8, Vec<Item>)>,
+}
+
+pub fn widen(c: &ScanCase) -> WorkspaceSpec {
+    let mut ws = c.ws.clone();
+    let mut dirs: Vec<usize> = ws.files.iter().filter(|f| f.loc.is_test() || f.loc.is_conftest()).map(|f| f.loc.dir).collect();
+    dirs.sort();
+    dirs.dedup();
+    if dirs.is_empty() {
+        dirs.push(0);
+    }
+    for (i, (pick, items)) in c.extra.iter().enumerate() {
+        let dir = dirs[(*pick as usize * dirs.len()) >> 8];
+        let loc = FileLoc { dir, kind: FileKind::Test(10 + i as u8) };
+        if ws.find(&loc).is_none() {
+            ws.files.push(FileSpec { loc, items: items.clone() });
+        }
+    }
+    crate::gen::normalise(&cfg(), &mut ws);
+    ws
+}
+
+fn scan_snap_opts(root: &str) -> SnapOpts {
+    SnapOpts { root: root.to_string(), raw_maps: false, cycles: 2, undeclared_files: Some(vec![]), ..SnapOpts::default() }
+}
+
+/// what one process sees after scanning `root`: observable snapshot + the set of indexed files
+pub fn scan_observation(root: &str) -> Value {
+    let db = pytest_language_server::FixtureDatabase::new();
+    db.scan_workspace(std::path::Path::new(root));
+    let mut s = snapshot(&db, &scan_snap_opts(root));
+    let files: Vec<String> = cached_files(&db).iter().map(|p| rel(root, p)).collect();
+    s["files"] = serde_json::json!(files);
+    s
+}
+
+/// child entry point (`vengine scan-snapshot <root>`), worker count through RAYON_NUM_THREADS
+pub fn scan_snapshot_main(root: &str) {
+    println!("{}", scan_observation(root));
+}
+
+fn flatten_obs(s: &Value) -> Flat {
+    let mut f = flatten(s);
+    for p in s.get("files").and_then(|v| v.as_array()).into_iter().flatten() {
+        f.insert(("files".to_string(), vec![], format!("indexed file {}", p)));
+    }
+    f
+}
+
+pub fn check_scan(c: &ScanCase, info: &mut CaseInfo) -> Outcome {
+    let ws = widen(c);
+    let m = Model::new(&ws);
+    let disk = match crate::fsws::DiskWs::create(&ws, "", None) {
+        Ok(d) => d,
+        Err(e) => return Outcome::Fail(format!("cannot materialise: {}", e)),
+    };
+    let scanned: Vec<String> = ws.files.iter().filter(|f| f.loc.is_test() || f.loc.is_conftest()).map(|f| f.loc.rel()).collect();
+    let n = scanned.len();
+    info.classes.push(format!("scan files {}", if n < 9 { "<9" } else if n < 17 { "9-16" } else if n < 33 { "17-32" } else { ">=33" }));
+    if n >= 9 && m.all_names().iter().any(|x| m.count_defs(x) >= 2) {
+        info.nontrivial = true;
+    }
+    let s_pick = order_sensitive_names(&m);
+    let s_diag: BTreeSet<String> = m.all_names().into_iter().filter(|n| m.count_defs(n) >= 2).collect();
+    let mut known: BTreeSet<String> = BTreeSet::new();
+    let mut detail = None;
+    let base = scan_observation(&disk.root);
+    let fb = flatten_obs(&base);
+    // by construction: every test module and conftest.py of the tree is indexed
+    let have: BTreeSet<String> = base["files"].as_array().into_iter().flatten().filter_map(|v| v.as_str().map(|s| s.to_string())).collect();
+    for f in &scanned {
+        info.checks += 1;
+        if !have.contains(f) {
+            return Outcome::Fail(format!("in-process scan of {} scannable files did not index {}", n, f));
+        }
+    }
+    let exe = std::env::current_exe().unwrap_or_else(|_| std::path::PathBuf::from("/verif/target/release/vengine"));
+    for workers in [1usize, 2, 3, 5, 8] {
+        let out = std::process::Command::new(&exe).args(["scan-snapshot", &disk.root]).env("RAYON_NUM_THREADS", workers.to_string()).output();
+        let Ok(out) = out else { continue };
+        if !out.status.success() {
+            let err = String::from_utf8_lossy(&out.stderr);
+            return Outcome::Fail(format!("scanning in a separate process with {} worker(s) ended with {:?}: {}", workers, out.status.code(), err.chars().take(400).collect::<String>()));
+        }
+        let Ok(other) = serde_json::from_slice::<Value>(&out.stdout) else { return Outcome::Fail(format!("child with {} workers printed no snapshot", workers)) };
+        info.checks += 1;
+        if other == base {
+            continue;
+        }
+        let fo = flatten_obs(&other);
+        let what = format!("scan with {} worker thread(s) in a separate process vs in-process scan ({} scannable files)", workers, n);
+        if let Some(fail) = attribute_diff(&m, &s_pick, &s_diag, &fb, &fo, &what, &mut known, &mut detail, info) {
+            return fail;
+        }
+    }
+    if known.is_empty() {
+        Outcome::Ok
+    } else {
+        info.fail_detail = detail;
+        Outcome::Known(known.into_iter().collect())
+    }
+}
+
+pub fn scan_case() -> impl Strategy<Value = ScanCase> {
+    use proptest::collection::vec;
+    (workspace(cfg()), vec((proptest::num::u8::ANY, crate::gen::items(&GenCfg { max_items: 2, ..cfg() }, crate::gen::FileRole::Test)), 0..=40)).prop_map(|(ws, extra)| ScanCase { ws, extra })
 }
 
 pub fn run(ctx: &Ctx) {
@@ -203,6 +331,7 @@ pub fn run(ctx: &Ctx) {
         || (workspace(cfg()), vec(vec(0u16..1000, 24), 3)).prop_map(|(ws, perm_keys)| Case { ws, perm_keys }),
         |c, info| check_case(c, info),
     );
+    ctx.run_prop_shrink("scan", ctx.tier.pick(120, 6_000), 8, 120, scan_case, |c, info| check_scan(c, info));
 }
 
 pub fn judge(_ctx: &Ctx, sub: &str, case: &Value) -> Option<Outcome> {
@@ -211,6 +340,10 @@ pub fn judge(_ctx: &Ctx, sub: &str, case: &Value) -> Option<Outcome> {
         "perm" => {
             let c: Case = from_case(case)?;
             Some(check_case(&c, &mut info))
+        }
+        "scan" => {
+            let c: ScanCase = from_case(case)?;
+            Some(check_scan(&c, &mut info))
         }
         _ => None,
     }
